@@ -73,6 +73,13 @@ def corr_subsys(ctx, driver, cases, results):
             i = row["i"]
             if not numeval.close(Fraction(row["c_sub"]), Fraction(sub["c_sub"][k])):
                 ctx.tie_break("corr:subsys", {"case": case["indict"], "row": res["x"][i], "model_c_sub": row["c_sub"], "impl_c_sub": sub["c_sub"][k]})
+            nv = (res.get("numeric_values") or {}).get(res["x"][i])
+            num_vars = [v for s_ in (res.get("solvers") or []) if s_["solver"].startswith("numeric") for v in s_["state_variables"]]
+            if nv is not None and sorted(res["x"][k_] for k_ in sub["keep"]) == sorted(num_vars):
+                ctx.count("corr_numeric_rhs")
+                if not numeval.close(Fraction(row["numeric_rhs"]), Fraction(nv)):
+                    ctx.tie_break("corr:numeric-rhs", {"case": case["indict"], "row": res["x"][i], "model": row["numeric_rhs"], "impl": nv,
+                                                       "note": "value of the returned numeric update expression vs the model's sum x_col*A[row,col] + b + c"})
             je = res.get("jac_exprs")
             if isinstance(je, list) and je[i] is not None:
                 ctx.count("corr_jac_expr")
